@@ -436,12 +436,14 @@ theorem dumpcap_stopped_iff (c : Cfg) (s : Script) :
 /-! ## the prologue: lock file and artifacts directory, in every world -/
 
 /-- exit code mapping including the paths on which the run does not start: a lock file that cannot be opened / locked
-    gives 72 (`exitcodes.OSFILE`), an artifacts directory that cannot be created lets the `OSError` out of
-    `entry_point()`, everything else is the documented mapping -/
+    gives 72 (`exitcodes.OSFILE`), Ctrl-C while waiting for a busy lock lets the `CancelledError` out of `entry_point()`
+    (-> KeyboardInterrupt in `asyncio.run`), an artifacts directory that cannot be created lets the `OSError` out,
+    everything else is the documented mapping -/
 theorem exit_mapping_world (w : World) (c : Cfg) (s : Script) :
     (entryPointW {} w c s).exit =
       match startOf w c with
       | .noLock => .ret 72
+      | .lockWaitInterrupted => .escLockWait
       | .noArtDir => .escArt
       | .started => .ret (exitOf c.kind (ended c s)) := by
   rw [entryPointW_eq]
@@ -458,6 +460,18 @@ theorem lock_failure_leaves_nothing (q : Quirks) (w : World) (c : Cfg) (s : Scri
         dcStopped := true, waited := false, artDir := none, runs := w.runs, latest := w.latest } := by
   unfold entryPointW lockPhase
   simp [hl, hb, St.final, St.init, OSFILE]
+
+/-- Ctrl-C while the run waits for a lock that somebody else holds: the cancellation leaves `entry_point()` and, again,
+    nothing else happens - no artifacts directory, META.json, log, run_meta row, hook or lifecycle point; earlier runs
+    and `LATEST` untouched.  (The lock descriptor stays with the blocked helper thread: `lockReleased = false`.) -/
+theorem lock_wait_interrupted_leaves_nothing (q : Quirks) (w : World) (c : Cfg) (s : Script)
+    (hl : c.lock = true) (hb : w.lock = .interrupted) :
+    entryPointW q w c s =
+      { exit := .escLockWait, metaFile := none, dbRow := .absent, dbClosed := true, logClosed := true,
+        lockReleased := false, preRan := false, postEnv := none, reports := [], transportClosed := true, trace := [],
+        tpStopped := true, dcStopped := true, waited := true, artDir := none, runs := w.runs, latest := w.latest } := by
+  unfold entryPointW lockPhase
+  simp [hl, hb, St.final, St.init, St.step]
 
 /-- an artifacts directory that cannot be created (base not writable, or a directory with the name the clock gives
     already exists): the `OSError` of `mkdir` leaves `entry_point()`; no record of a run appears, earlier runs and
@@ -482,11 +496,8 @@ theorem started_run_world_independent (w : World) (c : Cfg) (s : Script) (h : st
         artDir := if c.art then some w.now else none
         runs := if c.art then w.runs ++ [{ name := w.now, metaTag := some (code c s) }] else w.runs
         latest := if c.art then lastName (w.runs ++ [{ name := w.now }]) else w.latest } := by
-  have hfresh : c.art = true → (w.runs.any fun r => r.name == w.now) = false := by
-    intro ha
-    unfold startOf nameTaken at h
-    cases hl : (c.lock && w.lock == .broken) <;> cases hb : w.baseOk <;>
-      cases hn : (w.runs.any fun r => r.name == w.now) <;> simp_all
+  have hfresh : c.art = true → (w.runs.any fun r => r.name == w.now) = false :=
+    startOf_started_fresh w c h
   obtain ⟨a1, a2, a3, a4, a5, a6, a7, a8, a9, a10, a11, a12, a13⟩ := started_fields w c s
   obtain ⟨b1, b2, b3, b4, b5, b6, b7, b8, b9, -⟩ := started_fields {} c s
   obtain ⟨r1, r2, r3⟩ := started_resources w c s
@@ -529,19 +540,17 @@ theorem artifacts_fresh_world (w : World) (c : Cfg) (s : Script) :
       ∃ x, (entryPointW {} w c s).exit = .ret x ∧ ({ name := n, metaTag := some x } : RunDir) ∈ (entryPointW {} w c s).runs) := by
   cases h : startOf w c
   · -- no lock
-    have hl : c.lock = true ∧ w.lock = .broken := by
-      unfold startOf at h
-      cases h1 : c.lock <;> cases h2 : w.lock <;> simp [h1, h2] at h ⊢ <;> (split at h <;> simp at h)
+    have hl := startOf_noLock w c h
     rw [lock_failure_leaves_nothing {} w c s hl.1 hl.2]
+    exact ⟨fun r hr => hr, fun n hn => by simp at hn⟩
+  · have hl := startOf_interrupted w c h
+    rw [lock_wait_interrupted_leaves_nothing {} w c s hl.1 hl.2]
     exact ⟨fun r hr => hr, fun n hn => by simp at hn⟩
   · rw [art_failure_leaves_nothing w c s h]
     exact ⟨fun r hr => hr, fun n hn => by simp at hn⟩
   · rw [started_run_world_independent w c s h]
-    have hfresh : c.art = true → (w.runs.any fun r => r.name == w.now) = false := by
-      intro ha
-      unfold startOf nameTaken at h
-      cases hl : (c.lock && w.lock == .broken) <;> cases hb : w.baseOk <;>
-        cases hn : (w.runs.any fun r => r.name == w.now) <;> simp_all
+    have hfresh : c.art = true → (w.runs.any fun r => r.name == w.now) = false :=
+      startOf_started_fresh w c h
     cases ha : c.art
     · exact ⟨fun r hr => by simpa using hr, fun n hn => by simp at hn⟩
     · refine ⟨fun r hr => by simp [hr], fun n hn => ?_⟩
@@ -582,12 +591,10 @@ theorem latest_link_world (w : World) (c : Cfg) (s : Script) (h : startOf w c = 
 theorem busy_lock_only_delays_world (w : World) (c : Cfg) (s : Script) :
     entryPointW {} { w with lock := .busy } c s =
       { entryPointW {} { w with lock := .free } c s with waited := c.lock } := by
-  have hs : startOf { w with lock := .busy } c = startOf { w with lock := .free } c := by
-    unfold startOf nameTaken; cases c.lock <;> rfl
+  obtain ⟨hs, hn1, hn2⟩ := startOf_busy_free w c
   cases h : startOf { w with lock := .free } c
-  · exfalso
-    unfold startOf at h
-    cases c.lock <;> simp at h <;> (split at h <;> simp at h)
+  · exact absurd h hn1
+  · exact absurd h hn2
   · rw [art_failure_leaves_nothing _ c s h, art_failure_leaves_nothing _ c s (hs.trans h)]
     cases c.lock <;> rfl
   · rw [started_run_world_independent _ c s h, started_run_world_independent _ c s (hs.trans h)]
@@ -598,6 +605,7 @@ theorem lock_held_throughout_world (w : World) (c : Cfg) (s : Script) :
     ∀ o ∈ (entryPointW {} w c s).trace, o.lockHeld = c.lock := by
   cases h : startOf w c
   · rw [entryPointW_eq, h]; simp [St.final, St.init]
+  · rw [entryPointW_eq, h]; simp [St.final, St.init, interruptedSt, St.step]
   · rw [art_failure_leaves_nothing w c s h]; simp
   · rw [started_run_world_independent w c s h]; exact lock_held_throughout c s
 
@@ -609,10 +617,11 @@ theorem spec_holds_world (w : World) (c : Cfg) (s : Script) : violationsW w c s 
     rw [List.all_eq_true]; intro o ho; simpa using ht o ho
   unfold violationsW
   cases h : startOf w c
-  · have hl : c.lock = true ∧ w.lock = .broken := by
-      unfold startOf at h
-      cases h1 : c.lock <;> cases h2 : w.lock <;> simp [h1, h2] at h ⊢ <;> (split at h <;> simp at h)
+  · have hl := startOf_noLock w c h
     rw [lock_failure_leaves_nothing {} w c s hl.1 hl.2]
+    simp [chk]
+  · have hl := startOf_interrupted w c h
+    rw [lock_wait_interrupted_leaves_nothing {} w c s hl.1 hl.2]
     simp [chk]
   · simp only [ht']
     rw [art_failure_leaves_nothing w c s h]
@@ -620,11 +629,8 @@ theorem spec_holds_world (w : World) (c : Cfg) (s : Script) : violationsW w c s 
   · simp only
     unfold runClauses
     simp only [ht']
-    have hfresh : c.art = true → (w.runs.any fun r => r.name == w.now) = false := by
-      intro ha
-      unfold startOf nameTaken at h
-      cases hl : (c.lock && w.lock == .broken) <;> cases hb : w.baseOk <;>
-        cases hn : (w.runs.any fun r => r.name == w.now) <;> simp_all
+    have hfresh : c.art = true → (w.runs.any fun r => r.name == w.now) = false :=
+      startOf_started_fresh w c h
     have hpres : preserved w (entryPointW {} w c s) = true := by
       unfold preserved
       rw [List.all_eq_true]
@@ -722,6 +728,10 @@ example : (entryPoint (.allOn .uds) { propsPre := some (.err .uds) }).tpStopped 
     ∧ (entryPoint (.allOn .uds) { propsPre := some (.err .uds) }).exit = .ret 74 := by decide
 
 -- the three starts
+example : startOf { lock := .interrupted } { lock := true, art := true } = .lockWaitInterrupted
+    ∧ (entryPointW {} { lock := .interrupted, runs := [{ name := 3, metaTag := some 1 }] } { lock := true, art := true }
+        { main := some (.sysExit 4) }).runs = [{ name := 3, metaTag := some 1 }] := by decide
+
 example : startOf { lock := .broken } { lock := true } = .noLock
     ∧ startOf { baseOk := false } { art := true } = .noArtDir
     ∧ startOf { now := 7, runs := [{ name := 7, metaTag := some 0 }] } { art := true } = .noArtDir
